@@ -157,9 +157,9 @@ impl InitHeader {
 
         let payload_len = u16::from_be_bytes(payload_len_bytes.try_into().unwrap()).into();
         let data = if payload_len > Self::MAX_PAYLOAD_SIZE {
-            data
+            data.get(..Self::MAX_PAYLOAD_SIZE).ok_or(())?
         } else {
-            &data[..payload_len]
+            data.get(..payload_len).ok_or(())?
         };
         Ok((
             Self {
@@ -311,6 +311,8 @@ enum ExtensionError {
     OutOfSequence,
     /// Packet is not of the same channel ID as the current message
     WrongChannel,
+    /// Packet is shorter than the data it must carry
+    InvalidLength,
 }
 
 /// Error occuring when trying to create a new message to send to a client
@@ -423,16 +425,13 @@ impl Message {
         }
 
         if header.seq == self.sequence {
-            self.sequence += 1;
-            let remaining_bytes = self.payload_len - self.payload.len();
+            let remaining_bytes = self.payload_len.saturating_sub(self.payload.len());
             const MAX_CONT_PACKET_LEN: usize = MAX_PACKET_SIZE - ContHeader::HEADER_SIZE;
-            if remaining_bytes <= MAX_CONT_PACKET_LEN {
-                self.payload.extend_from_slice(&data[..remaining_bytes]);
-                Ok(true)
-            } else {
-                self.payload.extend_from_slice(data);
-                Ok(false)
-            }
+            let expected = remaining_bytes.min(MAX_CONT_PACKET_LEN);
+            let data = data.get(..expected).ok_or(ExtensionError::InvalidLength)?;
+            self.sequence += 1;
+            self.payload.extend_from_slice(data);
+            Ok(remaining_bytes <= MAX_CONT_PACKET_LEN)
         } else {
             Err(ExtensionError::OutOfSequence)
         }
